@@ -100,15 +100,16 @@ class MessageSerializer(object):
       return MethodReturnMessage(error=x)
 
     result_cls = self._FindClass('%s_result' % fn_name)
-    if result_cls:
-      result = result_cls()
-      result.read(protocol)
-    else:
-      result = None
+    if not result_cls:
+      # Not the reply to a method of this interface: do not pass it off as a
+      # successful void return.
+      return MethodReturnMessage(error=TApplicationException(
+        TApplicationException.WRONG_METHOD_NAME,
+        'reply names unknown method %r' % (fn_name,)))
+    result = result_cls()
+    result.read(protocol)
     protocol.readMessageEnd()
 
-    if not result:
-      return MethodReturnMessage()
     if getattr(result, 'success', None) is not None:
       return MethodReturnMessage(return_value=result.success)
 
